@@ -399,12 +399,45 @@ def noise_case(draw):
     return {'text': text}
 
 
-PARTS = {'rules': prop_rules, 'valid': prop_valid, 'noise': prop_noise}
+def prop_reparam(sh, case):
+    """Parameters are validated on every compilation of a parsed statement, not only the first."""
+    fails = []
+    conn = connection()
+    sequences = [
+        ('SELECT i + %s FROM #m WHERE j = %s', [[1, 2], [1], [1, 2, 3], [], [5, 6]]),
+        ('SELECT i FROM #m WHERE i = %s', [[1], [], [1, 2], [3]]),
+        ('SELECT i FROM #m WHERE i = %(a)s AND j = %(b)s', [{'a': 1, 'b': 2}, {'a': 1}, {}, {'a': 1, 'b': 2, 'c': 3}]),
+        ('SELECT i FROM #m WHERE i IN (SELECT w FROM #u WHERE uid > %s) AND j < %s', [[1, 2], [1], [1, 2]]),
+    ]
+    for text, plist in sequences:
+        stmt = conn.parse(text)
+        nph = text.count('%s')
+        names = {'a', 'b'} if '%(a)s' in text else None
+        for n, params in enumerate(plist):
+            ok = (len(params) == nph) if names is None else names <= set(params)
+            try:
+                beanquery.compiler.compile(conn, stmt, params)
+                outcome = 'accepted'
+            except beanquery.ProgrammingError:
+                outcome = 'rejected'
+            except Exception as exc:  # noqa: BLE001
+                fails.append((exc_sig(exc, 'reparam'), f'{text!r} compilation #{n + 1} with {params!r}: {exc!r}'))
+                continue
+            if (outcome == 'accepted') != ok:
+                fails.append((f'reparam:{outcome}', f'{text!r} compilation #{n + 1} with {params!r}'))
+            sh.record(f'reparam|{text}|{n}', n > 0, {'text': text, 'params': repr(params), 'outcome': outcome} if n == 1 else None)
+    return fails
+
+
+PARTS = {'rules': prop_rules, 'valid': prop_valid, 'noise': prop_noise, 'reparam': prop_reparam}
 
 
 def run(sh):
     case = {'slice': [sh.index, sh.n]}
     for sig, detail in prop_rules(sh, case):
         sh.fail(sig, detail, case, 'rules')
+    if sh.index == 0:
+        for sig, detail in prop_reparam(sh, None):
+            sh.fail(sig, detail, None, 'reparam')
     sh.search('valid', valid_case(), prop_valid, quick=4000, thorough=100000)
     sh.search('noise', noise_case(), prop_noise, quick=2400, thorough=80000)
